@@ -47,7 +47,109 @@ pub fn run(ctx: &Ctx, out: &mut Outcome) {
             huge_message(ctx, out);
         }
     }
+    if ctx.replay_seed.is_none() {
+        for k in 0..(if ctx.thorough() { 400 } else { 60 }) {
+            cut_short(ctx, out, k);
+            if out.should_stop() {
+                break;
+            }
+        }
+    }
     super::run_loop(ctx, out, 3000, 300_000, 8, one_run);
+}
+
+/// Datagrams that arrive CUT SHORT (a receive buffer that was too small, a path that truncates): a raw pair of
+/// endpoints, one reliable channel, a few small messages per tick packed into one packet; now and then the network
+/// delivers only a prefix of a data packet (the rest is lost). What was handed to the peer is what the crate's own
+/// decoder makes of those bytes: nothing (the datagram is refused) or the messages that are completely there. After the
+/// acknowledgements of that tick have been processed, every message the sender no longer holds must have been handed over.
+fn cut_short(ctx: &Ctx, out: &mut Outcome, k: u64) {
+    use bytes::Bytes;
+    use renet::{ChannelConfig, SendType};
+    use std::collections::BTreeSet;
+    use std::time::Duration;
+    let seed = ctx.shard_seed(0xC075_0000 + k);
+    let mut r = Rng::new(seed);
+    let ordered = r.chance(1, 2);
+    let resend = Duration::from_millis(*r.pick(&[50u64, 100, 300]));
+    let chan = |_: ()| ChannelConfig {
+        channel_id: 1,
+        max_memory_usage_bytes: 1 << 20,
+        send_type: if ordered { SendType::ReliableOrdered { resend_time: resend } } else { SendType::ReliableUnordered { resend_time: resend } },
+    };
+    let cc = ConnectionConfig { available_bytes_per_tick: 60_000, server_channels_config: vec![chan(())], client_channels_config: vec![chan(())] };
+    let mut s = RenetClient::new(cc.clone());
+    s.set_connected();
+    let mut rcv = RenetClient::new(cc);
+    rcv.set_connected();
+    let dt = Duration::from_millis(*r.pick(&[16u64, 50, 120]));
+    let mut subs: Vec<Vec<u8>> = Vec::new();
+    let mut handed: BTreeSet<u64> = BTreeSet::new();
+    let mut cuts = 0u64;
+    let mut history: Vec<String> = Vec::new();
+    let rounds = r.range(4, 30);
+    let cut_from = r.range(0, rounds);
+    for round in 0..rounds {
+        for _ in 0..r.range(2, 7) {
+            let len = r.urange(1, 300);
+            let mut m = r.bytes(len);
+            m[0] = subs.len() as u8;
+            subs.push(m.clone());
+            s.send_message(1, Bytes::from(m));
+        }
+        s.update(dt);
+        rcv.update(dt);
+        for p in s.get_packets_to_send() {
+            let whole = crate::rsim::decode(&p);
+            let n_msgs = match &whole {
+                Some(Packet::SmallReliable { messages, .. }) => messages.len(),
+                _ => 0,
+            };
+            let bytes = if round >= cut_from && n_msgs >= 2 && p.len() > 8 && r.chance(1, 2) {
+                cuts += 1;
+                let keep = match r.below(3) {
+                    0 => p.len() - 1,
+                    1 => p.len() - r.urange(1, subs.last().map_or(1, |m| m.len())),
+                    _ => r.urange(6, p.len() - 1),
+                };
+                history.push(format!("round {}: data packet of {} bytes ({} messages) arrives cut to {} bytes", round, p.len(), n_msgs, keep));
+                p[..keep].to_vec()
+            } else {
+                p.clone()
+            };
+            if let Some(Packet::SmallReliable { messages, .. }) = crate::rsim::decode(&bytes) {
+                for (id, m) in messages.iter() {
+                    if subs.get(*id as usize).map(|x| x.as_slice()) == Some(&m[..]) {
+                        handed.insert(*id);
+                    }
+                }
+            }
+            rcv.process_packet(&bytes);
+        }
+        while rcv.receive_message(1).is_some() {}
+        for p in rcv.get_packets_to_send() {
+            s.process_packet(&p);
+        }
+        let held: BTreeSet<u64> = s.verif_unacked(1).unwrap_or_default().into_iter().collect();
+        let early: Vec<u64> = (0..subs.len() as u64).filter(|id| !held.contains(id) && !handed.contains(id)).collect();
+        if !early.is_empty() && !s.is_disconnected() {
+            out.violation(
+                ctx,
+                "C08/released-before-delivery/cut-short-datagram",
+                "the sender stops retransmitting a reliable message only after every packet needed to rebuild it has been handed to the peer",
+                format!("messages {:?} are no longer held by the sender although no datagram containing them completely was handed to the peer; {}", early, history.join("; ")),
+                json!({"property": "C08", "engine": ctx.engine, "mode": "cut-short", "seed": seed, "k": k, "history": history}),
+            );
+            return;
+        }
+        if rcv.is_disconnected() || s.is_disconnected() {
+            out.count("cut_short.receiver_refused_the_cut_datagram_and_disconnected");
+            break;
+        }
+    }
+    out.count("cut_short_runs");
+    out.add("cut_short.cut_datagrams", cuts);
+    out.eval(crate::rng::mix(&[0xC075, seed]), cuts > 0);
 }
 
 /// One long one-way run: packet 0 (reliable message 0) arrives, packets 1..=k (reliable messages 1..=k) are lost, then
@@ -680,15 +782,15 @@ pub fn one_run(ctx: &Ctx, out: &mut Outcome, run_seed: u64) {
     // flood runs (own random stream): hundreds to thousands of tiny reliable messages per tick, so that one packet
     // carries more messages than fit a one-byte count and thousands of ids are acknowledged by one ack packet
     let mut fr = Rng::new(run_seed ^ 0xF100D);
-    let flood = fr.chance(1, 8);
+    let flood = fr.chance(1, 24);
     if flood {
         crate::props::c01::flood_cfg(&mut cfg, &mut fr);
         out.count("flood_runs");
     }
     let plan = Plan {
-        fault_ticks: if flood { fr.range(10, 40) } else { r.range(10, if ctx.thorough() { 200 } else { 80 }) },
+        fault_ticks: if flood { fr.range(8, 20) } else { r.range(10, if ctx.thorough() { 200 } else { 80 }) },
         rate_x100: *r.pick(&[100u64, 250, 600]),
-        max_msgs: if flood { fr.range(2500, 12_000) } else { r.range(20, 400) },
+        max_msgs: if flood { fr.range(1500, 5_000) } else { r.range(20, 400) },
         kinds: if flood {
             match fr.below(3) {
                 0 => vec![Kind::ReliableOrdered],
